@@ -78,6 +78,23 @@ def cases(rng, tier, stats):
             prog.append(("print", G.s("পরে")))
         deep += d >= 2
         out.append(prog_case("print-values", prog, rng=r, nontrivial=d >= 2, info={"depth": d}))
+    # print history (scale): 70 executions of one print statement on one kind of value (in a loop and unrolled), then nested
+    # values printed again — what a print statement writes never depends on how many prints ran before
+    nested = [G.lst(G.lst(G.num(1), G.num(2)), G.lst(G.num(3), G.num(4))), G.lst(G.rec((G.s("ক"), G.num(1))), G.lst(G.num(5), G.lst(G.num(6)))),
+              G.rec((G.s("ভ"), G.lst(G.rec((G.s("গ"), G.lst(G.num(7)))))))]
+    kinds = {"record": G.rec((G.s("মান"), G.var("i"))), "list": G.lst(G.var("i"), G.num(2)), "nested-list": G.lst(G.lst(G.var("i"))),
+             "nested-record": G.rec((G.s("ভ"), G.rec((G.s("গ"), G.var("i"))))), "scalar": G.var("i")}
+    nh = 0
+    for how in ("print", "printn"):
+        for kname, kv in kinds.items():
+            for reps in ((70,) if tier != "thorough" else (63, 64, 65, 70, 130, 300)):
+                prog = [("decl", "i", G.num(0))] + [("print", v) for v in nested]
+                prog.append(("loop", [("if", [(G.bin_(">=", G.var("i"), G.num(reps)), [("break",)])], None),
+                                      (how, kv), ("printn", G.s(" ")), ("assign", "i", [], G.bin_("+", G.var("i"), G.num(1)))]))
+                prog += [("print", G.s(""))] + [("print", v) for v in nested] + [("printn", v) for v in nested] + [("print", G.s("শেষ"))]
+                out.append(prog_case("print-history", prog, info={"statement": how, "value": kname, "repetitions": reps}))
+                nh += 1
+    stats["print_history_programs"] = nh
     stats["programs"] = n
     stats["with_depth_ge_2"] = deep
     return out
